@@ -12,12 +12,18 @@ def loopJson : LoopForm := ⟨false, true, true⟩
 def loopMessage : LoopForm := ⟨false, true, true⟩
 def asyncLoopJson : LoopForm := ⟨false, true, true⟩
 def asyncLoopMessage : LoopForm := ⟨false, true, true⟩
+def healthForm : HealthForm := ⟨true, true⟩
+def asyncHealthForm : HealthForm := ⟨true, true⟩
+def nodeTimeout : Bool := true
+def asyncNodeTimeout : Bool := true
 def filter : FilterForm := .requestedSubsetOfNode
 def asyncFilter : FilterForm := .requestedSubsetOfNode
 def fanOutOverTargets : Bool := true
 def asyncFanOutOverTargets : Bool := true
 def deadKinds : List IoKind := [.brokenPipe]
 def asyncDeadKinds : List IoKind := [.notConnected, .brokenPipe]
+def refusalKind : Option IoKind := none
+def asyncRefusalKind : Option IoKind := some .notConnected
 def policy : Policy := ⟨retryableKinds, serverRetry, otherRetry, deadKinds.headD .brokenPipe⟩
 def asyncPolicy : Policy := ⟨asyncRetryableKinds, asyncServerRetry, asyncOtherRetry, asyncDeadKinds.headD .brokenPipe⟩
 end Repe.Gen.Fleet
